@@ -87,6 +87,11 @@ def fixed_corpus(u):
     add('ids', Struct('IdZero', [Field(0, ('i64',), 'required')]))
     # a zero-size field shares its offset with the required field after it
     add('ids', Struct('ZeroNbr', [Field(1, ('struct', 'Empty')), Field(2, ('i32',), 'required'), Field(3, ('struct', 'Empty')), Field(4, ('string',), 'required')]))
+    # ... also when the required field is itself of zero size (same offset AND same size as its neighbours)
+    add('ids', Struct('ZeroNbr2', [Field(0, ('i32',), go_text='[0]func()', model_text='(unsup 17)', name='mark', exported=False, ignored=True),
+                                   Field(3, ('struct', 'Empty'), 'required'),
+                                   Field(0, ('i32',), go_text='struct{}', model_text='(unsup 25)', name='Pad', ignored=True),
+                                   Field(5, ('struct', 'Empty'), 'required'), Field(6, ('struct', 'Empty')), Field(7, ('i32',))]))
 
     # defaults
     add('defaults', Struct('Def', [
